@@ -2,28 +2,35 @@
    printed by the audit step of bin/check (Print Assumptions per theorem). *)
 From Coq Require Import String Ascii List Bool Arith NArith.
 From SV Require Import C09.Syntax C09.Model C09.Spec C09.ProofsTop C09.ProofsOptions C09.ProofsAllowed C09.ProofsDup C09.ProofsIds C09.Unfold C09.Recursion C09.RecursionProofs.
-From SV Require Import C09.ScopeSpec C09.ProofsScope C09.ProofsScopeBridge.
+From SV Require Import C09.ScopeSpec C09.ProofsScope C09.ProofsScopeBridge C09.ProofsScopeAll.
 Import ListNotations.
 Open Scope string_scope.
 
 (* FULL STATEMENT (resolver_sound_complete): for ALL programs and ALL 2^6 option
-   vectors, (rule, node) is reported  <->  violates opts p rule node, and
+   vectors, (rule, node) is reported  <->  the rule is broken at that node, and
    errors = []  <->  no rule is broken.
-   PROVED HERE for the 30 rules whose statement needs no name resolution beyond the
-   parameter list itself: the 6 context rules (break/continue, return, if/for/while
-   at top level, while), the 3 load-placement rules and the underscore rule, the 2
-   assignment-target rules, the 11 argument-list rules (order, duplicates, the 255
-   limits), the 8 parameter-list rules (order of star, double-star and default
-   parameters, bare star, duplicate parameters).
-   ALSO PROVED: the rule RUndefined, against the declarative scoping
-   specification of ScopeSpec.v: undefined_sound_complete below.
-   MISSING (still only modelled executable in Model.v and checked on every run by
-   the exact-list correspondence and the oracle Spec.scope_viol): the same
-   equivalence for RSetUnsupported, RReassign and RLoadReassign.  What is proved
-   about them: scoping_errors_at_identifiers_partial (sound positions) and
-   option_on_never_rejects.  Consequently `errors = [] <-> no rule broken` is
-   proved in the direction accepted -> no violation (of the proved rules and of
-   RUndefined: accepted_implies_no_undefined). *)
+   PROVED: errors = [] <-> no rule is broken, for all 35 rules
+   (resolver_accepts_iff_no_rule_broken); and the per-node equivalence
+   - exactly, for the 30 rules whose statement needs no name resolution beyond the
+     parameter list itself (this theorem): the 6 context rules (break/continue,
+     return, if/for/while at top level, while), the 3 load-placement rules and the
+     underscore rule, the 2 assignment-target rules, the 11 argument-list rules
+     (order, duplicates, the 255 limits), the 8 parameter-list rules (order of
+     star, double-star and default parameters, bare star, duplicate parameters);
+   - exactly, for RReassign (reassign_sound_complete);
+   - for RUndefined and RSetUnsupported: every report is at a broken node and a
+     broken node leads to a report of the same rule (for RUndefined: of the same
+     name; exactly at the node when it is outside every block) -- the resolver
+     reports repeats of a failed lookup once (lookupLexical's memo, the
+     predeclared-name cache), so the per-node equivalence is false for the code as
+     it is (undefined_sound_complete, set_sound_complete, ex_memoised_once);
+   - for RLoadReassign: exactly, unless the program has a load statement inside
+     a function (load_reassign_sound_complete_partial).
+   All of these together, rule by rule: resolver_sound_complete_all_rules_partial.
+   MISSING for the full per-node statement: nothing can be added for RUndefined /
+   RSetUnsupported (the code reports once); RLoadReassign at the items of a load
+   statement nested in a function (the specification does not say whether such
+   a binding is a rebinding; the program is rejected anyway). *)
 Theorem resolver_sound_complete_partial :
   forall (o : options) (W : world) (p : program) (r : rule) (n : N),
     scoping_rule r = false ->
@@ -81,8 +88,8 @@ Proof. exact param_duplicates_lemma. Qed.
    for ALL programs and option vectors every "undefined" report is positioned at
    an occurrence of an identifier that is neither predeclared nor universal, and
    every "sets not supported" report at an occurrence of the identifier `set`,
-   only when Set is off.  (Completeness -- every undefined use leads to a report
-   -- is not proved; see resolver_sound_complete_partial.) *)
+   only when Set is off.  (The full statements against the scoping specification:
+   undefined_sound_complete, set_sound_complete below.) *)
 Theorem scoping_errors_at_identifiers_partial :
   forall (o : options) (W : world) (p : program) (n : N),
     (In (RUndefined, n) (resolve o W p) ->
@@ -174,6 +181,44 @@ Theorem load_reassign_sound_complete_partial :
     (top_fn_loads_stmts p = [] ->
        (In (RLoadReassign, n) (resolve o W p) <-> In (RLoadReassign, n) (scope_viol o W p))).
 Proof. exact load_reassign_partial_lemma. Qed.
+
+(* ---- `set` without the Set option (RSetUnsupported), for ALL programs and options:
+   every report is at a use of the name `set` that resolves to the universal name
+   (ScopeSpec.set_uses: bound by no enclosing block, no visible file-level binding, not
+   predeclared) with the option off, and if there is such a use there is a report (useToplevel
+   caches the names it found among the predeclared / universal ones, lookupLexical memoises:
+   later uses are silent). *)
+Theorem set_sound_complete :
+  forall (o : options) (W : world) (p : program),
+    (forall n, In (RSetUnsupported, n) (resolve o W p) -> exists u, In u (set_uses o W p) /\ s_n u = n) /\
+    (set_uses o W p <> [] -> exists n, In (RSetUnsupported, n) (resolve o W p)).
+Proof. exact set_main. Qed.
+
+Theorem set_vs_oracle :
+  forall (o : options) (W : world) (p : program), regular o p = true ->
+    (forall n, In (RSetUnsupported, n) (scope_viol o W p) <-> exists u, In u (set_uses o W p) /\ s_n u = n) /\
+    (forall n, In (RSetUnsupported, n) (resolve o W p) -> In (RSetUnsupported, n) (scope_viol o W p)) /\
+    ((exists n, In (RSetUnsupported, n) (scope_viol o W p)) -> exists n, In (RSetUnsupported, n) (resolve o W p)).
+Proof. exact set_oracle_lemma. Qed.
+
+(* ---- all 35 rules: the resolver accepts a program exactly when no static rule is broken
+   (ScopeSpec.no_rule_broken: no violation of the 30 rules of Spec.viol, no undefined use, no use
+   of `set` without the option, no rebinding at file level), for ALL programs and ALL option
+   vectors ... *)
+Theorem resolver_accepts_iff_no_rule_broken :
+  forall (o : options) (W : world) (p : program), resolve o W p = [] <-> no_rule_broken o W p.
+Proof. exact accepted_iff_lemma. Qed.
+
+(* ... and rule by rule (ScopeSpec.broken): every report is at a node where its rule is broken
+   (except a load rebinding reported at an item of a load statement nested in a function), and
+   every broken node is reported (for undefined names and `set`: a node of the same rule is). *)
+Theorem resolver_sound_complete_all_rules_partial :
+  forall (o : options) (W : world) (p : program) (r : rule) (n : N),
+    (In (r, n) (resolve o W p) -> broken o W p r n \/ (r = RLoadReassign /\ In n (top_fn_loads_stmts p))) /\
+    (broken o W p r n ->
+       In (r, n) (resolve o W p) \/
+       ((r = RUndefined \/ r = RSetUnsupported) /\ exists n', In (r, n') (resolve o W p))).
+Proof. exact all_rules_lemma. Qed.
 
 (* A program the resolver rejects performs no effect: the pipeline
    (ExecFileOptions: parse, resolve, and only then compile and run) returns the
@@ -318,6 +363,30 @@ Example ex_rebinding :
   /\ top_fn_loads_stmts ex_rebind = [14%N; 17%N]
   /\ resolve gr_on ex_W ex_rebind = [(RLoadInFunction, 12%N); (RLoadInFunction, 15%N)]
   /\ top_fn_loads_stmts ex_scope = [].
+Proof. repeat split; vm_compute; reflexivity. Qed.
+
+(*  set([1]); def f(): return set()      -- Set off: the first lookup is reported, the name is cached *)
+Definition ex_setp : program :=
+  SCons (SExpr (ECall 1004 (EId 1001 "set") (APos 1005 ELit ANil)))
+  (SCons (SDef 2001 2005 "f" PNil (SCons (SReturn 3003 (Some (ECall 3013 (EId 3010 "set") ANil))) SNil)) SNil).
+Definition set_on : options :=
+  {| o_set := true; o_while := false; o_toplevel_control := false; o_global_reassign := false;
+     o_load_binds_globally := false; o_recursion := false |}.
+Example ex_set :
+  resolve all_off ex_W ex_setp = [(RSetUnsupported, 3010%N)]
+  /\ map s_n (set_uses all_off ex_W ex_setp) = [1001%N; 3010%N]
+  /\ scope_viol all_off ex_W ex_setp = [(RSetUnsupported, 1001%N); (RSetUnsupported, 3010%N)]
+  /\ resolve set_on ex_W ex_setp = [] /\ set_uses set_on ex_W ex_setp = []
+  /\ regular all_off ex_setp = true.
+Proof. repeat split; vm_compute; reflexivity. Qed.
+
+(* an accepted program of some size: nothing is broken *)
+Example ex_accepted :
+  let p := SCons (SAssign false (LId 1 "g") ELit)
+           (SCons (SDef 2 3 "f" (PId 4 "a" (PStar 5 (Some (6%N, "r")) PNil))
+                     (SCons (SReturn 7 (Some (EComp 8 (EId 9 "r") (LId 10 "y") CNil (EOp (ECons (EId 11 "y") (ECons (EId 12 "g") (ECons (EId 13 "len") ENil))))))) SNil))
+           SNil) in
+  resolve all_off ex_W p = [] /\ viol all_off p = [] /\ undefined_uses all_off ex_W p = [] /\ scope_viol all_off ex_W p = [].
 Proof. repeat split; vm_compute; reflexivity. Qed.
 
 (* f (code 7) calls sorted (a built-in) which calls back a second closure of the same def *)
